@@ -1425,7 +1425,7 @@ impl<R: std::io::Read> std::io::Read for SignGenerator<'_, R> {
                     return Ok(0);
                 }
                 State::Error => {
-                    panic!("inconsistent state, panicked before");
+                    return Err(std::io::Error::other("SignGenerator errored"));
                 }
                 State::Ops {
                     mut ops,
